@@ -156,5 +156,214 @@ pub mod gs {
                 Some(p) => ix(p) < builds(g).len() && builds(g)[ix(p)].outs.ids@.contains(FileId(f as u32)),
                 None => true }
     }
+
+    // --- Graph::add_build vocabulary
+    /// files after the outputs in `done` have been claimed by build `nid`
+    pub open spec fn outs_marked(of: Seq<File>, nf: Seq<File>, nid: BuildId, done: Seq<FileId>) -> bool {
+        &&& nf.len() == of.len()
+        &&& forall|f: int| 0 <= f < nf.len() ==> (#[trigger] nf[f]).name == of[f].name
+        &&& forall|f: int| 0 <= f < nf.len() ==> (#[trigger] nf[f]).input ==
+                (if of[f].input is None && done.contains(FileId(f as u32)) { Some(nid) } else { of[f].input })
+    }
+    pub open spec fn all_unproduced(of: Seq<File>, s: Seq<FileId>) -> bool {
+        forall|j: int| 0 <= j < s.len() ==> ix(#[trigger] s[j]) < of.len() && of[ix(s[j])].input is None
+    }
+    /// some listed output is already produced by an earlier statement
+    pub open spec fn conflict(of: Seq<File>, s: Seq<FileId>) -> bool {
+        exists|j: int| 0 <= j < s.len() && ix(#[trigger] s[j]) < of.len() && of[ix(s[j])].input is Some
+    }
+    pub open spec fn same_except_outs(a: Build, b: Build) -> bool {
+        a.ins == b.ins && a.discovered_ins == b.discovered_ins && a.cmdline == b.cmdline && a.rspfile == b.rspfile
+        && a.pool == b.pool && a.depfile == b.depfile && a.desc == b.desc && a.location == b.location
+        && a.parse_showincludes == b.parse_showincludes && a.hide_success == b.hide_success && a.hide_progress == b.hide_progress
+    }
+
+    pub proof fn lemma_no_dup_push<T>(s: Seq<T>, x: T)
+        ensures no_dup(s.push(x)) == (no_dup(s) && !s.contains(x))
+    {
+        let t = s.push(x);
+        if no_dup(s) && !s.contains(x) {
+            assert forall|i: int, j: int| 0 <= i < j < t.len() implies t[i] != t[j] by {
+                if j == s.len() { if t[i] == x { assert(s[i] == x); } }
+            }
+        }
+        if no_dup(t) {
+            assert forall|i: int, j: int| 0 <= i < j < s.len() implies s[i] != s[j] by {
+                assert(t[i] == s[i] && t[j] == s[j]);
+            }
+            if s.contains(x) {
+                let i = choose|i: int| 0 <= i < s.len() && s[i] == x;
+                assert(t[i] == t[s.len() as int]);
+            }
+        }
+    }
+    pub proof fn lemma_dedup_no_dup_id<T>(s: Seq<T>)
+        requires no_dup(s)
+        ensures dedup(s) == s
+        decreases s.len()
+    {
+        if s.len() > 0 {
+            let t = s.drop_last();
+            assert(s =~= t.push(s.last()));
+            lemma_no_dup_push(t, s.last());
+            lemma_dedup_no_dup_id(t);
+        } else {
+            assert(s =~= Seq::<T>::empty());
+        }
+    }
+    /// one iteration of the outputs loop of add_build
+    pub proof fn lemma_mark_step(of: Seq<File>, nf0: Seq<File>, nf1: Seq<File>, nid: BuildId, outs: Seq<FileId>, k: int)
+        requires
+            0 <= k < outs.len(), of.len() < 0x1_0000_0000,
+            outs_marked(of, nf0, nid, outs.subrange(0, k)),
+            all_unproduced(of, outs.subrange(0, k)),
+            ix(outs[k]) < of.len(),
+            of[ix(outs[k])].input is None,
+            nf1.len() == nf0.len(),
+            forall|f: int| 0 <= f < nf0.len() && f != ix(outs[k]) ==> nf1[f] == nf0[f],
+            nf1[ix(outs[k])].name == nf0[ix(outs[k])].name,
+            nf1[ix(outs[k])].input == Some(nid),
+        ensures
+            outs_marked(of, nf1, nid, outs.subrange(0, k + 1)),
+            all_unproduced(of, outs.subrange(0, k + 1)),
+            outs.subrange(0, k + 1) =~= outs.subrange(0, k).push(outs[k]),
+    {
+        broadcast use crate::vx_keys::group_keys;
+        let d0 = outs.subrange(0, k);
+        let d1 = outs.subrange(0, k + 1);
+        assert(d1 =~= d0.push(outs[k]));
+        assert forall|f: int| 0 <= f < nf1.len() implies (#[trigger] nf1[f]).input ==
+                (if of[f].input is None && d1.contains(FileId(f as u32)) { Some(nid) } else { of[f].input }) by {
+            let fid = FileId(f as u32);
+            assert(ix(fid) == f);
+            if d1.contains(fid) {
+                let j = choose|j: int| 0 <= j < d1.len() && d1[j] == fid;
+                if j < k { assert(d0[j] == fid); assert(d0.contains(fid)); } else { assert(fid == outs[k]); }
+            }
+            if d0.contains(fid) {
+                let j = choose|j: int| 0 <= j < d0.len() && d0[j] == fid;
+                assert(d1[j] == fid);
+            }
+            if f == ix(outs[k]) {
+                assert(outs[k].0 as usize as int == f);
+                assert(fid == outs[k]);
+                assert(d1[k] == fid);
+            } else {
+                assert(nf1[f] == nf0[f]);
+                assert(fid != outs[k]);
+            }
+        }
+        assert forall|j: int| 0 <= j < d1.len() implies ix(#[trigger] d1[j]) < of.len() && of[ix(d1[j])].input is None by {
+            if j < k { assert(d0[j] == d1[j]); }
+        }
+    }
+    /// final step of add_build: the graph with the new build pushed is well formed
+    pub proof fn lemma_add_build_wf(g0: Graph, g1: Graph, b: Build)
+        requires
+            wf_graph(g0), builds(g0).len() + 1 < 0x1_0000_0000,
+            builds(g1) == builds(g0).push(b),
+            wf_build(b), ids_ok(g0, b.ins.ids@), ids_ok(g0, b.discovered_ins@),
+            no_dup(b.outs.ids@),
+            outs_marked(files(g0), files(g1), BuildId(builds(g0).len() as u32), b.outs.ids@),
+            all_unproduced(files(g0), b.outs.ids@),
+        ensures wf_graph(g1),
+    {
+        broadcast use crate::vx_keys::group_keys;
+        let n = builds(g0).len() as int;
+        let nid = BuildId(n as u32);
+        assert(ix(nid) == n);
+        assert forall|bi: int| 0 <= bi < builds(g1).len() implies wf_build(#[trigger] builds(g1)[bi]) && build_ids_ok(g1, builds(g1)[bi]) && no_dup(builds(g1)[bi].outs.ids@) by {
+            if bi < n {
+                assert(builds(g1)[bi] == builds(g0)[bi]);
+                assert(build_ids_ok(g0, builds(g0)[bi]));
+            } else {
+                assert(builds(g1)[bi] == b);
+            }
+        }
+        assert forall|bi: int, j: int| 0 <= bi < builds(g1).len() && 0 <= j < builds(g1)[bi].outs.ids@.len() implies
+                files(g1)[ix(#[trigger] builds(g1)[bi].outs.ids@[j])].input == Some(BuildId(bi as u32)) by {
+            let fid = builds(g1)[bi].outs.ids@[j];
+            if bi < n {
+                assert(builds(g1)[bi] == builds(g0)[bi]);
+                assert(build_ids_ok(g0, builds(g0)[bi]));
+                assert(fid_ok(g0, fid));
+                assert(files(g0)[ix(fid)].input == Some(BuildId(bi as u32)));
+                let _ = files(g1)[ix(fid)];
+            } else {
+                assert(builds(g1)[bi] == b);
+                assert(b.outs.ids@[j] == fid);
+                assert(files(g0)[ix(fid)].input is None);
+                assert(FileId(ix(fid) as u32) == fid);
+                assert(b.outs.ids@.contains(fid));
+                let _ = files(g1)[ix(fid)];
+            }
+        }
+        assert forall|f: int| 0 <= f < files(g1).len() implies match (#[trigger] files(g1)[f]).input {
+                Some(p) => ix(p) < builds(g1).len() && builds(g1)[ix(p)].outs.ids@.contains(FileId(f as u32)),
+                None => true } by {
+            let fid = FileId(f as u32);
+            if files(g0)[f].input is None && b.outs.ids@.contains(fid) {
+                assert(files(g1)[f].input == Some(nid));
+                assert(builds(g1)[n] == b);
+            } else {
+                assert(files(g1)[f].input == files(g0)[f].input);
+                match files(g0)[f].input {
+                    Some(p) => { assert(builds(g1)[ix(p)] == builds(g0)[ix(p)]); }
+                    None => {}
+                }
+            }
+        }
+    }
+
+    pub open spec fn same_elems<T>(a: Seq<T>, b: Seq<T>) -> bool { forall|x: T| a.contains(x) == b.contains(x) }
+    pub proof fn lemma_marked_congr(of: Seq<File>, nf: Seq<File>, nid: BuildId, d0: Seq<FileId>, d1: Seq<FileId>)
+        requires outs_marked(of, nf, nid, d0), all_unproduced(of, d0), same_elems(d0, d1)
+        ensures outs_marked(of, nf, nid, d1), all_unproduced(of, d1)
+    {
+        assert forall|f: int| 0 <= f < nf.len() implies (#[trigger] nf[f]).input ==
+                (if of[f].input is None && d1.contains(FileId(f as u32)) { Some(nid) } else { of[f].input }) by {
+            assert(d0.contains(FileId(f as u32)) == d1.contains(FileId(f as u32)));
+        }
+        assert forall|j: int| 0 <= j < d1.len() implies ix(#[trigger] d1[j]) < of.len() && of[ix(d1[j])].input is None by {
+            assert(d1.contains(d1[j]));
+            assert(d0.contains(d1[j]));
+            let i = choose|i: int| 0 <= i < d0.len() && d0[i] == d1[j];
+            assert(ix(d0[i]) < of.len());
+        }
+    }
+    pub proof fn lemma_same_elems_push_dup<T>(d: Seq<T>, x: T)
+        requires d.contains(x)
+        ensures same_elems(d, d.push(x))
+    {
+        let e = d.push(x);
+        assert forall|y: T| d.contains(y) == e.contains(y) by {
+            if d.contains(y) { let i = choose|i: int| 0 <= i < d.len() && d[i] == y; assert(e[i] == y); }
+            if e.contains(y) { let i = choose|i: int| 0 <= i < e.len() && e[i] == y; if i < d.len() { assert(d[i] == y); } }
+        }
+    }
+    pub proof fn lemma_same_elems_dedup<T>(s: Seq<T>)
+        ensures same_elems(s, dedup(s))
+    {
+        assert forall|y: T| s.contains(y) == dedup(s).contains(y) by { lemma_dedup_contains(s, y); }
+    }
+    pub proof fn lemma_no_dup_prefix<T>(s: Seq<T>, k: int)
+        requires no_dup(s), 0 <= k <= s.len()
+        ensures no_dup(s.subrange(0, k))
+    {
+        let t = s.subrange(0, k);
+        assert forall|i: int, j: int| 0 <= i < j < t.len() implies t[i] != t[j] by { assert(t[i] == s[i] && t[j] == s[j]); }
+    }
+    pub proof fn lemma_ids_ok_dedup(g: Graph, s: Seq<FileId>)
+        requires ids_ok(g, s)
+        ensures ids_ok(g, dedup(s))
+    {
+        let d = dedup(s);
+        assert forall|j: int| 0 <= j < d.len() implies fid_ok(g, #[trigger] d[j]) by {
+            assert(d.contains(d[j]));
+            lemma_dedup_contains(s, d[j]);
+            let i = choose|i: int| 0 <= i < s.len() && s[i] == d[j];
+            assert(fid_ok(g, s[i]));
+        }
+    }
     }
 }
